@@ -14,6 +14,11 @@ def _abs2sum(E, xd):
 def tt_norm(E, s):
     """norm(), plain and squared, tracked (Gram chain) and untracked (QR sweep)"""
     x, xc = tt_input(E, 'x', s['N'], s['R'], s['dtype'], s.get('M'), via=s.get('via'))
+    if s.get('plus_zero'):
+        # the same tensor stored with an exactly zero rank block in front of / behind the data (sum with the zero tensor)
+        M_ = s.get('M')
+        z = E.tt.zeros(list(s['N'])) if M_ is None else E.tt.zeros([(m, n) for m, n in zip(M_, s['N'])])
+        x = (z + x) if s['plus_zero'] == 'front' else (x + z)
     if s.get('tracked') and s.get('history'):
         for c in x.cores:
             c.requires_grad_(True)
